@@ -2,3 +2,9 @@
 // element operations ran into the Value drop-glue explosion and timed out).
 #![allow(warnings)]
 use super::*;
+
+#[cfg(test)]
+mod playback {
+    use super::*;
+    include!("/verif/.cache/playback/crud.rs");
+}
